@@ -247,7 +247,7 @@ class HttpDataTransform:
     """Transform and recover Cobalt Strike HTTP C2 data using transformation steps."""
 
     def __init__(self, steps: List[TransformStep], reverse: bool = False, build: str = None) -> None:
-        self.tsteps: List[TransformStep] = steps
+        self.tsteps: List[TransformStep] = list(steps)
         self.rsteps: List[TransformStep] = steps[::-1]
 
         if reverse:
